@@ -204,6 +204,7 @@ type c04Case struct {
 	callRefl  bool
 	flt       c04Faults // error-path history around the judged loggers (c04_fault.go)
 	storm     int       // console storm (c04_storm.go): c04StormOn, c04StormGC
+	wrap      int       // forwarding wrapper cores in front of / inside the judged tee (c04_wrap.go)
 	ticks     int
 	seed      uint64
 	class     string
@@ -544,11 +545,7 @@ func c04run(cs *c04Case, caseNo int) *c04Obs {
 	if flt.tee != 0 {
 		bad, stop := c04teeBad(cs)
 		stopTee = stop
-		if flt.tee == 1 {
-			cores = append([]zapcore.Core{bad}, cores...)
-		} else {
-			cores = append(append([]zapcore.Core{}, cores...), bad)
-		}
+		cores = c04withBad(cores, bad, flt.tee) // first / after the first healthy branch / last
 	}
 	var fviol atomic.Value // first unexpected panic of a fault-path call / failed pool probe
 	noteF := func(s string) {
@@ -567,7 +564,7 @@ func c04run(cs *c04Case, caseNo int) *c04Obs {
 	if !flt.preLate {
 		prologue()
 	}
-	base, shared := c04loggers(cs, zapcore.NewTee(cores...), zap.ErrorOutput(zapcore.Lock(obs.errOut)))
+	base, shared := c04loggers(cs, c04topology(cores, cs.wrap), zap.ErrorOutput(zapcore.Lock(obs.errOut)))
 
 	var wg, tickWg sync.WaitGroup
 	start := make(chan struct{})
@@ -1134,6 +1131,7 @@ func c04child(c *Ctx) {
 	// the seed generated before they existed
 	rb := NewRNG(c.Seed*0x9E3779B97F4A7C15 + 0xC04B16)
 	rs := NewRNG(c.Seed*0x9E3779B97F4A7C15 + 0xC0457)
+	rw := NewRNG(c.Seed*0x9E3779B97F4A7C15 + 0xC04F3D) // forwarding wrappers (c04_wrap.go): a stream of their own as well
 	caseNo := 0
 	var emitR func(cs *c04Case, rr *RNG)
 	emit := func(cs *c04Case) { emitR(cs, r) }
@@ -1148,6 +1146,9 @@ func c04child(c *Ctx) {
 		}
 		if cs.bigs() > 0 {
 			cs.class += "/big"
+		}
+		if cs.wrapped() {
+			cs.class += "/wrap"
 		}
 		if cs.storm != 0 {
 			cs.class = cs.stormName() + ":" + cs.class
@@ -1364,6 +1365,9 @@ func c04child(c *Ctx) {
 	// 1e. directed: console storm (c04_storm.go): 64..128 goroutines, thousands of console entries with
 	// With-context and call-site fields, payloads 7 B..96 KiB, forced garbage collections
 	c04stormGrid(c, rs, emitR)
+	// 1f. directed: forwarding wrapper cores in front of the judged tee (the tee is written through
+	// multiCore.Write) with a failing branch at every position (c04_wrap.go)
+	c04wrapGrid(c, rw, emitR)
 	// 2. seeded random configurations
 	N := 800
 	budget := 4000
@@ -1443,6 +1447,10 @@ func c04child(c *Ctx) {
 			// a storm of the random configuration (c04_storm.go): 32..80 goroutines on its sinks, encoders,
 			// contexts and fault history
 			c04stormRandom(rs, cs, ws, refl)
+		}
+		if rw.Chance(15) {
+			// forwarding wrappers on top of whatever the case is, mostly with a failing branch in front of healthy ones
+			c04wrapRandom(rw, cs)
 		}
 		if rb.Chance(bigPct) {
 			// oversize entries on top of whatever the case is: prologue / every 16th / dedicated / oversize context
